@@ -246,7 +246,9 @@ func c29CountValueString(v float64) string {
 	return fmt.Sprint(v)
 }
 
-func c29RefQuantile(phi float64, vals []float64) float64 {
+// c29RefQuantile: alwaysInterpolate=false is the oracle. alwaysInterpolate=true ("interpolate even
+// when the rank is integral") is used only to recognise one known class of divergence.
+func c29RefQuantile(phi float64, vals []float64, alwaysInterpolate bool) float64 {
 	if len(vals) == 0 || math.IsNaN(phi) {
 		return math.NaN()
 	}
@@ -261,13 +263,16 @@ func c29RefQuantile(phi float64, vals []float64) float64 {
 	rank := phi * float64(len(s)-1)
 	lo := math.Floor(rank)
 	w := rank - lo
-	if w == 0 {
+	if w == 0 && !alwaysInterpolate {
 		return s[int(lo)]
+	}
+	if int(lo)+1 >= len(s) {
+		return s[int(lo)]*(1-w) + s[int(lo)]*w
 	}
 	return s[int(lo)]*(1-w) + s[int(lo)+1]*w
 }
 
-func c29RefAggValue(e *c29Expr, vals []float64) float64 {
+func c29RefAggValue(e *c29Expr, vals []float64, altQuantile bool) float64 {
 	n := float64(len(vals))
 	switch e.Op {
 	case "sum", "avg":
@@ -309,12 +314,14 @@ func c29RefAggValue(e *c29Expr, vals []float64) float64 {
 		}
 		return math.Sqrt(sq / n)
 	case "quantile":
-		return c29RefQuantile(e.ParamF, vals)
+		return c29RefQuantile(e.ParamF, vals, altQuantile)
 	}
 	panic("c29RefAggValue: " + e.Op)
 }
 
-func c29RefAgg(e *c29Expr, in []ag_Sample) *c29Expect {
+func c29RefAgg(e *c29Expr, in []ag_Sample) *c29Expect { return c29RefAggAlt(e, in, false) }
+
+func c29RefAggAlt(e *c29Expr, in []ag_Sample, altQuantile bool) *c29Expect {
 	type grp struct {
 		labels  map[string]string
 		members []ag_Sample
@@ -369,7 +376,7 @@ func c29RefAgg(e *c29Expr, in []ag_Sample) *c29Expect {
 			for i, m := range g.members {
 				vals[i] = m.V
 			}
-			exp.Exact = append(exp.Exact, ag_Sample{L: g.labels, V: c29RefAggValue(e, vals)})
+			exp.Exact = append(exp.Exact, ag_Sample{L: g.labels, V: c29RefAggValue(e, vals, altQuantile)})
 		}
 	}
 	c29MarkDuplicates(exp)
